@@ -126,12 +126,18 @@ func (v *View) checkC01(res *Result) {
 			}
 			if pid != m.By || m.PrevBy != m.By {
 				// did the deleter read the record as its own just before (on the same goroutine)?
+				// (the store call IMMEDIATELY before this Delete on the same goroutine: a
+				// second Delete after a failed one has no read of its own)
 				how := "blind"
+				var prevCall *StoreCall
 				for _, c := range v.CallsL {
-					if c.Inst == m.By && c.Op == "Get" && c.G == m.G && c.Apply >= 0 && c.Apply < m.Seq && c.Issue > m.Seq-400 {
-						if id, _, _ := DecodeIDToken([]byte(c.Val)); id == m.By && c.OK {
-							how = "after-own-read"
-						}
+					if c.Inst == m.By && c.G == m.G && c.Issue < issue && c.Call != m.Call {
+						prevCall = c
+					}
+				}
+				if prevCall != nil && prevCall.Op == "Get" && prevCall.Apply >= 0 && prevCall.OK {
+					if id, _, _ := DecodeIDToken([]byte(prevCall.Val)); id == m.By {
+						how = "after-own-read"
 					}
 				}
 				res.viol("C01", "delete-foreign", "delete-foreign:"+how+":in-shutdown="+fmt.Sprint(inStop),
@@ -426,6 +432,21 @@ func (v *View) checkC08(res *Result) {
 	P := map[string]int{}
 	D := map[string]int{}
 	lastKind := map[string]string{}
+	// a promotion goroutine held by the harness at its entry site has, by construction, not
+	// called the callback yet: samples taken meanwhile are not judged
+	parked := make([]bool, len(v.Ev))
+	np := 0
+	for idx, e := range v.Ev {
+		if e.Op == "yield:promoteGoroutineEntry" {
+			switch e.Kind {
+			case "break.hit":
+				np++
+			case "break.release":
+				np--
+			}
+		}
+		parked[idx] = np > 0
+	}
 	for idx, e := range v.Ev {
 		switch e.Kind {
 		case "cb.promote":
@@ -474,7 +495,7 @@ func (v *View) checkC08(res *Result) {
 			if e.Snap == nil || e.S == "final" {
 				continue
 			}
-			if v.inStopAt(e.Inst, idx) {
+			if v.inStopAt(e.Inst, idx) || parked[idx] {
 				continue
 			}
 			res.Obs["c08.quiescent_checks"]++
@@ -489,6 +510,9 @@ func (v *View) checkC08(res *Result) {
 	// (a) exactly one promotion per term (judged at the first quiescent point after the term start)
 	for _, t := range v.All {
 		q := v.nextQuiescent(t.Inst, t.Up)
+		for q >= 0 && parked[q] {
+			q = v.nextQuiescent(t.Inst, q)
+		}
 		if q < 0 {
 			continue
 		}
@@ -498,7 +522,7 @@ func (v *View) checkC08(res *Result) {
 				n++
 			}
 		}
-		if n != 1 && !v.inStopAt(t.Inst, t.Up) {
+		if n != 1 && !v.inStopAt(t.Inst, t.Up) && !v.inStopAt(t.Inst, q) {
 			res.viol("C08", "promote-count", fmt.Sprintf("promote-count=%d", n), fmt.Sprintf("%s term %s had %d promotion callbacks by the next quiescent point", t.Inst, t.Token, n), t.Up)
 		}
 		if len(t.Promote) > 1 {
